@@ -37,9 +37,8 @@ theorem split_merge (k : SvdKernels R ρ) (dsqrt : ρ → ρ) (A : T3 R) (qd0 qd
   obtain ⟨hsq, hrec⟩ := hrec U σ V q hsvd
   simp only at h
   split at h
-  · first
-      | (rw [throw_bind_ne] at h; exact h.elim)
-      | (rw [throw_map_ne] at h; exact h.elim)
+  · rw [throw_bind_ne] at h
+    exact h.elim
   · rename_i hdis
     simp only [pure_ok, Prod.mk.injEq] at h
     obtain ⟨rfl, rfl, _⟩ := h
